@@ -424,6 +424,38 @@ struct World
             long double tol = (loose ? 2e-3L : 2e-5L) * (fabsl(fd[k]) + 0.1L * gmax) + 4e3L * (long double)DBL_EPSILON * cabs / step[k];
             double ratio = (double)(err / tol);
             if (ratio > worst) { worst = ratio; worst_k = k; }
+            if (err > tol)
+            {
+                // Before calling this a violation, make sure the reference itself has converged: repeat the Richardson
+                // quotient with a 4 and a 16 times smaller step.  A reference that keeps moving (a cost with very large
+                // higher derivatives at this point) decides nothing; a converged one is compared again.
+                auto R = [&](double hh) {
+                    auto D = [&](double q) {
+                        y(k) = x(k) + q; long double cp = cost_at(y);
+                        y(k) = x(k) - q; long double cm = cost_at(y);
+                        y(k) = x(k);
+                        double up = (x(k) + q) - x(k), dn = x(k) - (x(k) - q);
+                        return (cp - cm) / ((long double)up + (long double)dn);
+                    };
+                    return (4.0L * D(hh / 2) - D(hh)) / 3.0L;
+                };
+                long double r4 = R((double)step[k] / 4), r16 = R((double)step[k] / 16);
+                long double tol16 = (loose ? 2e-3L : 2e-5L) * (fabsl(r16) + 0.1L * gmax) + 4e3L * (long double)DBL_EPSILON * cabs / (step[k] / 16);
+                if (fabsl(r16 - r4) > 0.25L * tol16)
+                {
+                    ctx.count("probe.fd_reference_not_converged");
+                    continue; // inconclusive at this coordinate
+                }
+                if (fabsl((long double)got.grad(k) - r16) <= tol16)
+                {
+                    ctx.count("probe.fd_reference_refined");
+                    continue;
+                }
+                fd[k] = r16;
+                tol = tol16;
+                err = fabsl((long double)got.grad(k) - r16);
+                ratio = (double)(err / tol);
+            }
             if (err > tol && std::getenv("STSIM_DEBUG_MARGIN"))
                 for (double f : {4.0, 1.0, 0.25, 1.0 / 16, 1.0 / 256, 1.0 / 4096})
                 {
